@@ -254,3 +254,49 @@ def run(rep: Report, prog: Program, tier: str) -> None:
                                     f"number, and the receiver's SRTP replay protection drops all but the first (retransmissions are never recovered)", construct=f"{src} not advanced"))
     if n_alloc < 2:
         raise AnalysisError("sequence number allocation sites of the sender not found")
+
+    # ---------------- C11-RTXPT: the sender retransmits with the RTX payload type that belongs to the codec it encodes with
+    rep.rule("C11-RTXPT", "the RTX payload type chosen by RTCRtpSender.send is the one whose apt is the encoding codec's payload type", min_instances=5)
+    from types import SimpleNamespace as _NS
+
+    from engine.index import Unknown as _Unk
+    from engine.peval import Evaluator as _Ev, Raised as _Rs
+
+    from .objhook import make_hook as _mkh
+    send_f = prog.func(S + ".send")
+    sel = [n for n in ast.walk(send_f.node) if isinstance(n, ast.For) and any(isinstance(x, ast.Assign) and unparse(x.targets[0]) == "self.__rtx_payload_type" for x in ast.walk(n))]
+    if len(sel) != 1:
+        raise AnalysisError("RTCRtpSender.send: the loop selecting __rtx_payload_type was not found")
+    run_rtp_calls = [n for n in ast.walk(send_f.node) if isinstance(n, ast.Call) and unparse(n.func).endswith("_run_rtp") and n.args]
+    if not run_rtp_calls or unparse(run_rtp_calls[0].args[0]) != "parameters.codecs[0]":
+        raise AnalysisError("RTCRtpSender.send: the encoding codec is no longer parameters.codecs[0]; the C11-RTXPT oracle does not apply")
+
+    def cdc(name, pt, apt=None):
+        return _NS(name=name, mimeType="video/" + name, payloadType=pt, clockRate=90000, parameters=({} if apt is None else {"apt": apt}))
+    layouts = [
+        ("[VP8 96, rtx 97 (apt 96)]", [cdc("VP8", 96), cdc("rtx", 97, 96)], 97),
+        ("[VP8 96, rtx 97 (apt 96), H264 98, rtx 99 (apt 98)]", [cdc("VP8", 96), cdc("rtx", 97, 96), cdc("H264", 98), cdc("rtx", 99, 98)], 97),
+        ("[VP8 96, H264 98, rtx 99 (apt 98), rtx 97 (apt 96)]", [cdc("VP8", 96), cdc("H264", 98), cdc("rtx", 99, 98), cdc("rtx", 97, 96)], 97),
+        ("[H264 98, rtx 97 (apt 96), VP8 96, rtx 99 (apt 98)]", [cdc("H264", 98), cdc("rtx", 97, 96), cdc("VP8", 96), cdc("rtx", 99, 98)], 99),
+        ("[VP8 96, H264 98, rtx 99 (apt 98)]", [cdc("VP8", 96), cdc("H264", 98), cdc("rtx", 99, 98)], None),
+        ("[VP8 96]", [cdc("VP8", 96)], None),
+    ]
+    oh = _mkh(prog)
+    for label, codecs, want in layouts:
+        me = _NS(__cls__=send_f.cls)
+        setattr(me, "__rtx_payload_type", None)
+        ev5 = _Ev(prog, send_f.module, send_f.cls, {"self": me, "parameters": _NS(codecs=codecs)}, oh)
+        try:
+            ev5.exec_stmt(sel[0])
+        except _Rs as ex:
+            rep.fail(mk_finding(prog, PROP, "C11-RTXPT", send_f, sel[0], f"codecs {label}: selecting the RTX payload type raises {ex.name}", construct=f"rtx payload type raises {ex.name}"))
+            continue
+        except _Unk as ex:
+            raise AnalysisError(f"C11-RTXPT cannot evaluate the selection loop for {label}: {ex}")
+        got = getattr(me, "__rtx_payload_type")
+        if got == want:
+            rep.ok("C11-RTXPT", f"codecs {label}", sample=f"retransmissions use payload type {got}")
+        else:
+            rep.fail(mk_finding(prog, PROP, "C11-RTXPT", send_f, sel[0], f"codecs {label}: the sender encodes with payload type {codecs[0].payloadType} but retransmits with RTX payload type {got} "
+                                f"(expected {want}): the receiver unwraps the retransmission as another codec, the hole is never filled and the decoder is handed a frame nobody sent",
+                                construct="rtx payload type of the encoding codec"))
